@@ -62,4 +62,10 @@ theorem transfer_component_wiring : Gen.Flow.wiring.lookup "Transfer.transfer" =
 /-- the σ₈-integration range test and the validators' ranges in transfer.py are the documented ones; no new special case -/
 theorem guards_transfer : Gen.Guards.transfer = Spec.Guards.transfer := by decide
 
+/-- C03: the σ₈ normalisation integrates the object's own kⁿT² with a top-hat window, on the fixed internal range or on the object's
+    own grid — never on a grid clipped to the user's range -/
+theorem sigma8_normalisation_wiring :
+    Gen.Flow.wiring.lookup "Transfer._unn_sig8/filters.TopHat" = some Spec.Wiring.sig8Narrow ∧
+    Gen.Flow.wiring.lookup "Transfer._unn_sig8/filters.TopHat#2" = some Spec.Wiring.sig8Wide := by decide
+
 end Hmf.C03
